@@ -50,23 +50,48 @@ def gen_case(rng):
         need.append([c, 0 if r < 0.2 else (rng.randint(0, stage) if r < 0.85 else stage + 1)])
     case = {"chain": chain, "need": need, "k": rng.randrange(n)}
     if rng.random() < 0.3:
+        # one class takes a second base outside the hierarchy whose constructor accepts the argument of the call;
+        # it sits behind the whole chain on the resolution order and records what it receives
+        case["mixin_at"] = rng.randrange(n)
+    if rng.random() < 0.3:
         # one class defines __new__(cls, x=None); the instance is then created with an argument (every __init__ accepts it)
-        # (not where the library wraps that __new__ itself - a class with invariants and no __init__ at or below it -
-        #  while a class further down the chain has an __init__: the recorded finding D4b, exercised by the elab cluster)
-        def has_init_upto(j):
-            return any(chain[i]["init"] is not None for i in range(j + 1))
-
-        def has_invs_upto(j):
-            return any(chain[i]["invs"] for i in range(j + 1))
-        def wrapped_new_below_init(j):
-            # some class q at or above j has invariants and no __init__ at or below it (its __new__ gets the checks)
-            # while a class further down has an __init__
-            return any(has_invs_upto(q) and not has_init_upto(q) and any(chain[p]["init"] is not None for p in range(q + 1, n))
-                       for q in range(j, n))
-        ok = [j for j in range(n) if not wrapped_new_below_init(j)]
+        ok = [j for j in range(n) if not wrapped_new_below_init(chain, j, case.get("mixin_at"))]
         if ok:
             case["new_at"] = rng.choice(ok)
     return case
+
+
+def wrapped_new_below_init(chain, j, mixin_at):
+    """with __new__ defined at class j: some class q at or above j has invariants and finds no __init__ (its __new__ gets
+    the checks) while a class further down has one - the recorded finding D4b, exercised by the elab cluster.
+    The mix-in's constructor counts as one of the class that takes the mix-in."""
+    n = len(chain)
+
+    def has_init(i):
+        return chain[i]["init"] is not None or mixin_at == i
+
+    def has_init_upto(q):
+        return any(has_init(i) for i in range(q + 1))
+
+    def has_invs_upto(q):
+        return any(chain[i]["invs"] for i in range(q + 1))
+    return any(has_invs_upto(q) and not has_init_upto(q) and any(has_init(p) for p in range(q + 1, n))
+               for q in range(j, n))
+
+
+def directed_cases():
+    """shapes that need several rare choices at once"""
+    out = []
+    for n in (1, 2, 3):
+        for new_at in range(n):
+            for mixin_at in range(n):
+                for inv_at in range(n):
+                    # no class of the chain defines a constructor: a class with invariants gets the pass-on constructor,
+                    # the mix-in's constructor is the next one on the resolution order and __new__ takes the argument
+                    chain = [{"invs": [1] if i == inv_at else [], "init": None} for i in range(n)]
+                    if not wrapped_new_below_init(chain, new_at, mixin_at):
+                        out.append({"chain": chain, "need": [[1, 0]], "k": n - 1, "new_at": new_at, "mixin_at": mixin_at})
+    return out
 
 
 def cq_case(c):
@@ -94,10 +119,12 @@ def load_corpus(prop):
 
 def script_of(c):
     L = ["import icontract", "need = %r" % dict((a, b) for a, b in c["need"]), ""]
+    if c.get("mixin_at") is not None:
+        L += ["class Side:", "    def __init__(self, x=None): print('Side.__init__ received', x)", ""]
     for i, cd in enumerate(c["chain"]):
         for cid in reversed(cd["invs"]):
             L.append("@icontract.invariant(lambda self: getattr(self, '_stage', 0) >= need[%d])" % cid)
-        L.append("class L%d(%s):" % (i, "L%d" % (i - 1) if i else "icontract.DBC"))
+        L.append("class L%d(%s%s):" % (i, "L%d" % (i - 1) if i else "icontract.DBC", ", Side" if c.get("mixin_at") == i else ""))
         if c.get("new_at") == i:
             L.append("    def __new__(cls, x=None): return super().__new__(cls)")
         if cd["init"] is None:
@@ -126,7 +153,7 @@ def run_into(out, build, problems, prop, tier, replay=None, n_quick=600, n_thoro
     else:
         corpus = load_corpus(prop)
         ncorpus = len(corpus)
-        cases = corpus + [gen_case(rng) for _ in range(n_quick if tier == "quick" else n_thorough)]
+        cases = corpus + directed_cases() + [gen_case(rng) for _ in range(n_quick if tier == "quick" else n_thorough)]
     obs = []
     for r in C.run_impl_parallel("impl_ctor.py", [{"cases": cases[i:i + 500]} for i in range(0, len(cases), 500)]):
         obs.extend(r)
